@@ -123,7 +123,58 @@ def run(prop, tier):
             print(f"VIOLATION property={prop} replay={p}")
             log(f"[{prop}] {m['what']} schedule {bi} step {m['step']}: {json.dumps(m['detail'])[:300]}")
             rc = 1
+        # free-running part: unscheduled threads (writer, readers at writer-published snapshots,
+        # flusher, two compactors with the real Leveled strategy, occasional major compaction),
+        # seeded random pauses at the yield points; TLC checks every read against the write log
+        fr = os.path.join(work, "free.ndjson")
+        rounds, writes = (4, 250) if tier == "quick" else (60, 600)
+        r = subprocess.run([vlib.HARNESS, "free", "--out", fr, "--nkeys", "6", "--rounds", str(rounds),
+                            "--writes", str(writes), "--seed", str(sd),
+                            "--scratch", os.path.join(work, "ftrees")],
+                           stdout=subprocess.PIPE, stderr=subprocess.PIPE, text=True)
+        if r.returncode != 0:
+            log(r.stderr[-2000:])
+            raise vlib.ToolError("harness free failed")
+        with open(fr) as f:
+            flines = f.readlines()
+        # one chunk per round
+        rounds_l = []
+        for ln in flines:
+            if '"ev":"reset"' in ln:
+                rounds_l.append([])
+            rounds_l[-1].append(ln)
+        fviol = []
+        from concurrent.futures import ThreadPoolExecutor
+
+        def vround(ri):
+            p = os.path.join(work, f"free-{ri}.ndjson")
+            with open(p, "w") as f:
+                f.writelines(rounds_l[ri])
+            res = vlib.validate_chunk("TraceFree.tla", "TraceFree.cfg", p, 6, work, 2400)
+            if not res["ok"]:
+                raise vlib.ToolError("TraceFree validation did not complete: " + res["out_tail"][-400:])
+            return ri, [m for m in res["msgs"] if m[0] == "VIOL"], any(m[0] == "REJECT" for m in res["msgs"])
+
+        with ThreadPoolExecutor(max_workers=8) as ex:
+            for ri, vs, rej in ex.map(vround, range(len(rounds_l))):
+                if rej:
+                    raise vlib.ToolError("free-running log not fully consumed")
+                if vs:
+                    fviol.append((ri, vs[0]))
+        for ri, m in fviol[:3]:
+            os.makedirs(vlib.REPLAYS, exist_ok=True)
+            keep = os.path.join(vlib.REPLAYS, f"{prop}-free-{sd}-{ri}.ndjson")
+            with open(keep, "w") as f:
+                f.writelines(rounds_l[ri])
+            p = vlib.save_replay(prop, {"free_log": keep, "seed": sd, "round": ri},
+                                 {"what": m[1], "line": m[2]})
+            print(f"VIOLATION property={prop} replay={p}")
+            log(f"[{prop}] free-running {m[1]} round {ri} event {m[2]}: {json.dumps(m[3])[:300]}")
+            rc = 1
+        nev = len(flines)
         cov = {
+            "free_running": {"rounds": len(rounds_l), "events": nev,
+                             "reads": sum(1 for x in flines if '"ev":"r"' in x or '"ev":"scan"' in x)},
             "states": states, "transitions": trans,
             "traces_validated_against_impl": len(uniq),
             "samples": uniq[:2],
@@ -132,10 +183,12 @@ def run(prop, tier):
             "drift_lines": sum(1 for m in msgs if m["kind"] == "DRIFT"),
             "exhaustive": tier == "thorough",
         }
-        vlib.write_evidence(prop, tier, "model_checking", cov, time.time() - t0, len(first),
+        vlib.write_evidence(prop, tier, "model_checking", cov, time.time() - t0, len(first) + len(fviol),
                             ["every critical section is atomic under its lock; the lock-free memtable and the atomics are linearizable",
                              "one flusher (the flush lock serialises flushes), one compactor issuing major-style merges; schedules are forced at the four yield points of the verif hooks",
-                             "quick tier replays a sample of the maximal schedules of the interleaving graph"])
+                             "quick tier replays a sample of the maximal schedules of the interleaving graph",
+                             "free-running readers use snapshots the writer has published (its own mark), as the property states; the tree's visible_seqno is also advanced by version installs and may run ahead of a write in flight (DESIGN.md 9, observations)",
+                             "a violation found in a free-running round is reported with the recorded event log as replay (the OS schedule is not reproducible)"])
         log(f"[{prop}] {len(uniq)} forced schedules, {nl} lines, {len(first)} violations, {round(time.time()-t0)}s")
         return rc
     finally:
